@@ -1,17 +1,134 @@
+//! gomini CLI: `gomini vet <file.go>`, `gomini run <file.go>`.
+//! Also usable as a `go` shim: `go run <file.go>` (argv[1] == "run").
+
+use std::io::Write;
+
+fn usage() -> ! {
+    eprintln!("usage: gomini vet <file.go> | gomini run [--sched=det|random:<seed>] [--budget=N] <file.go> | gomini version");
+    std::process::exit(64);
+}
+
 fn main() {
     let args: Vec<String> = std::env::args().collect();
-    for f in &args[2..] {
-        let src = std::fs::read_to_string(f).unwrap();
-        match gomini::parse::parse_file(&src) {
-            Ok(file) => {
-                let (rep, _info) = gomini::vet::check(&file);
-                if rep.ok() { println!("{}: ok", f); } else {
-                    println!("{}: errors={} unsupported={}", f, rep.errors.len(), rep.unsupported.len());
-                    for e in rep.errors.iter().take(5) { println!("   [{}] line {}: {}", e.kind, e.line, e.msg); }
-                    for u in rep.unsupported.iter().take(5) { println!("   unsupported: {}", u); }
+    if args.len() < 2 {
+        usage();
+    }
+    let invoked_as_go = std::path::Path::new(&args[0]).file_name().map_or(false, |n| n == "go");
+    match args[1].as_str() {
+        "version" => {
+            println!("go version gomini0.1 (Go subset interpreter) linux/amd64");
+        }
+        "vet" => {
+            let mut status = 0;
+            for f in &args[2..] {
+                let src = match std::fs::read_to_string(f) {
+                    Ok(s) => s,
+                    Err(e) => {
+                        eprintln!("{}: {}", f, e);
+                        std::process::exit(1);
+                    }
+                };
+                let rep = gomini::vet_source(&src);
+                for e in &rep.errors {
+                    println!("{}:{}: [{}] {}", f, e.line, e.kind, e.msg);
+                    status = 1;
+                }
+                for u in &rep.unsupported {
+                    println!("{}: unsupported: {}", f, u);
+                    if status == 0 {
+                        status = 3;
+                    }
                 }
             }
-            Err(e) => println!("{}: ERR {}", f, e),
+            std::process::exit(status);
         }
+        "run" => {
+            let mut cfg = gomini::RunConfig::default();
+            let mut file = None;
+            for a in &args[2..] {
+                if let Some(s) = a.strip_prefix("--sched=") {
+                    if s == "det" {
+                        cfg.sched = gomini::Sched::Deterministic;
+                    } else if let Some(seed) = s.strip_prefix("random:") {
+                        cfg.sched = gomini::Sched::Random { seed: seed.parse().unwrap_or(0) };
+                    } else {
+                        usage();
+                    }
+                } else if let Some(s) = a.strip_prefix("--budget=") {
+                    cfg.step_budget = s.parse().unwrap_or(cfg.step_budget);
+                } else if a.starts_with('-') {
+                    // flags of the real go tool are ignored
+                } else if file.is_none() {
+                    file = Some(a.clone());
+                }
+            }
+            let file = match file {
+                Some(f) => f,
+                None => usage(),
+            };
+            let src = match std::fs::read_to_string(&file) {
+                Ok(s) => s,
+                Err(e) => {
+                    eprintln!("{}: {}", file, e);
+                    std::process::exit(1);
+                }
+            };
+            let parsed = match gomini::parse(&src) {
+                Ok(p) => p,
+                Err(e) => {
+                    // like `go run` on a compile error
+                    eprintln!("# command-line-arguments");
+                    match &e {
+                        gomini::ParseError::Syntax { line, col, msg } => {
+                            eprintln!("./{}:{}:{}: syntax error: {}", base_name(&file), line, col, msg);
+                            std::process::exit(1);
+                        }
+                        gomini::ParseError::Unsupported { line, what } => {
+                            eprintln!("gomini: unsupported: line {}: {}", line, what);
+                            std::process::exit(3);
+                        }
+                    }
+                }
+            };
+            let rep = gomini::vet(&parsed);
+            if !rep.errors.is_empty() {
+                eprintln!("# command-line-arguments");
+                for e in &rep.errors {
+                    eprintln!("./{}:{}: {}", base_name(&file), e.line, e.msg);
+                }
+                std::process::exit(1);
+            }
+            let res = gomini::run(&parsed, &cfg);
+            let _ = std::io::stdout().write_all(&res.stdout);
+            let _ = std::io::stdout().flush();
+            let workdir = std::path::Path::new(&file).parent().map(|p| p.to_string_lossy().into_owned()).unwrap_or_default();
+            let workdir = if workdir.is_empty() { ".".to_string() } else { workdir };
+            let stderr = res.stderr.replace("${WORKDIR}", &workdir);
+            let _ = std::io::stderr().write_all(stderr.as_bytes());
+            match &res.exit {
+                gomini::Exit::Ok => {}
+                gomini::Exit::Panic { .. } | gomini::Exit::Deadlock => {
+                    if invoked_as_go || true {
+                        eprintln!("exit status 2");
+                    }
+                    // `go run` itself exits with status 1 when the program
+                    // fails; the binary would exit with 2
+                    std::process::exit(if invoked_as_go { 1 } else { 2 });
+                }
+                gomini::Exit::Budget => {
+                    eprintln!("gomini: step/output budget exhausted");
+                    std::process::exit(3);
+                }
+                gomini::Exit::Unsupported(w) => {
+                    eprintln!("gomini: unsupported: {}", w);
+                    std::process::exit(3);
+                }
+            }
+        }
+        _ => usage(),
     }
+}
+
+fn base_name(p: &str) -> String {
+    std::path::Path::new(p).file_name().map(|n| n.to_string_lossy().into_owned()).unwrap_or_else(|| p.to_string())
 }
